@@ -1291,3 +1291,27 @@ def index_while_to_for(fn) -> int:
             body[j - 1:j + 1] = [loop]
             count += 1
     return count
+
+
+def strip_annotations(fn) -> int:
+    """`x: T = v` -> `x = v` ; a bare `x: T` disappears (annotations of locals / attributes have no run-time effect inside functions)"""
+    count = 0
+    for body in _stmt_blocks(fn):
+        i = 0
+        while i < len(body):
+            s = body[i]
+            if isinstance(s, ast.AnnAssign):
+                if s.value is None:
+                    if len(body) > 1:
+                        del body[i]
+                    else:
+                        body[i] = ast.copy_location(ast.Pass(), s)
+                        i += 1
+                    count += 1
+                    continue
+                new = ast.Assign(targets=[s.target], value=s.value)
+                ast.copy_location(new, s)
+                body[i] = new
+                count += 1
+            i += 1
+    return count
